@@ -82,8 +82,8 @@ CLAIMED = {
         design="§4 C10"),
     "C11": dict(
         technique="Lean 4: from_span / current_local_parent characterisation theorems, root-token theorem, collector stamping, traceparent round trip (C12); differential fh-seq vs model; spec oracle on every extracted context",
-        text="Kernel-checked: C11_from_span, C11_from_noop, C11_local (incl. None for empty token, D6 fix), C11_root_token, C11_record_of_item, C11_via_traceparent; over whole programs: C11_context_belongs_to_a_root (any context extracted anywhere in any program names a trace created by a root op of that program, with that root's sampling decision). Tie: contexts extracted at every program point compared with model and specification (trace id, span id of the named span, sampled flag).",
-        note="The link 'root created from an extracted context is delivered under that span' is the composition C11_root_token + C11_record_of_item; remote children built from *observed* contexts are not yet generated dynamically by the harness.",
+        text="Kernel-checked: C11_from_span, C11_from_noop, C11_local (incl. None for empty token, D6 fix), C11_root_token, C11_rootFrom_token, C11_record_of_item, C11_via_traceparent; over whole programs: C11_context_belongs_to_a_root (any context extracted anywhere in any program names a trace created by a root op of that program, with that root's sampling decision). Tie: contexts extracted at every program point compared with model and specification (trace id, span id of the named span, sampled flag).",
+        note="The link 'root created from an extracted context is delivered under that span' is the composition C11_root_token + C11_record_of_item; roots created from observed contexts (`rootFrom` / `rootFromLocal`: SpanContext::from_span / current_local_parent, directly or through a real traceparent encode/decode) are generated dynamically and checked by the tree / exactly-once / contexts oracles; C11_rootFrom_token is the model-level statement. In those programs multi-parent spans are switched off (copies with equal name, trace and parent could not be told apart by the oracle).",
         design="§4 C11"),
     "C16": dict(
         technique="Lean 4: inertness/laziness theorems for non-recording spans and empty local context, stateless disabled model; differential: the same programs on the real crate built with and without `enable` (fh-seq / fh-off) vs the two models; closure-invocation oracle; /proc thread count",
